@@ -51,6 +51,11 @@ def feasible(st: State) -> bool:
 
 
 def assign_target(ev: Ev, target: ast.expr, val: Val) -> None:
+	c = ev.fn.contract
+	if c is not None and c.rewrites and isinstance(target, (ast.Attribute, ast.Subscript)):
+		txt = ast.unparse(target)
+		if txt in c.rewrites:
+			target = ast.parse(c.rewrites[txt], mode='eval').body  # the rewritten place (e.g. a property that denotes an element of a field)
 	if isinstance(target, ast.Name):
 		old = ev.st.env.get(target.id)
 		declared = ev.fn.__dict__.setdefault('declared', {}).get(target.id)
@@ -112,6 +117,19 @@ def exec_block(eng: Engine, fn: FnCtx, stmts: list[ast.stmt], st: State) -> Iter
 
 def exec_stmt(eng: Engine, fn: FnCtx, s: ast.stmt, st: State) -> Iterator[Outcome]:
 	ln = getattr(s, 'lineno', 0)
+	if fn.contract is not None and fn.contract.stmt_rewrites and not getattr(s, '_rewritten', False):
+		txt = ast.unparse(s)
+		rep = fn.contract.stmt_rewrites.get(txt)
+		if rep is not None:
+			eng.used_rewrites.add(f'{fn.label}: statement `{txt}`  ~>  `{rep.strip()}`')
+			body = ast.parse(rep).body
+			for b in body:
+				for n in ast.walk(b):
+					if isinstance(n, ast.stmt):
+						n._rewritten = True  # type: ignore[attr-defined]
+						n.lineno = ln
+			yield from exec_block(eng, fn, body, st)
+			return
 
 	def simple(f: Callable[[Ev], Any]) -> Iterator[Outcome]:
 		for kind, res, st2 in explore(eng, fn, st, f, ln):
